@@ -391,6 +391,12 @@ struct Reader
             kv[line.substr(0, eq)] = line.substr(eq + 1);
         }
     }
+    // A key that is missing keeps the field's default: case files written before a field was
+    // added to a Case stay readable.
+    bool has(const std::string& k) const
+    {
+        return kv.find(prefix + k) != kv.end();
+    }
     const std::string& get(const std::string& k)
     {
         auto it = kv.find(prefix + k);
@@ -400,6 +406,8 @@ struct Reader
     }
     void operator()(const char* k, std::string& v)
     {
+        if (!has(k))
+            return;
         const std::string& s = get(k);
         if (s.empty() || s[0] != 'x')
             throw std::runtime_error("case file: bad string for " + prefix + k);
@@ -407,18 +415,21 @@ struct Reader
     }
     void operator()(const char* k, bool& v)
     {
-        v = get(k) == "1";
+        if (has(k))
+            v = get(k) == "1";
     }
     template <class T>
     std::enable_if_t<std::is_integral<T>::value && !std::is_same<T, bool>::value>
     operator()(const char* k, T& v)
     {
-        v = static_cast<T>(std::stoll(get(k)));
+        if (has(k))
+            v = static_cast<T>(std::stoll(get(k)));
     }
     template <class T>
     std::enable_if_t<std::is_enum<T>::value> operator()(const char* k, T& v)
     {
-        v = static_cast<T>(std::stoll(get(k)));
+        if (has(k))
+            v = static_cast<T>(std::stoll(get(k)));
     }
     template <class T>
     std::enable_if_t<std::is_class<T>::value && !std::is_same<T, std::string>::value>
@@ -432,6 +443,8 @@ struct Reader
     template <class T>
     void operator()(const char* k, std::vector<T>& v)
     {
+        if (!has(std::string(k) + ".n"))
+            return;
         std::size_t n = static_cast<std::size_t>(std::stoull(get(std::string(k) + ".n")));
         v.clear();
         v.resize(n);
@@ -443,6 +456,8 @@ struct Reader
     }
     void operator()(const char* k, std::vector<bool>& v)
     {
+        if (!has(k))
+            return;
         const std::string& s = get(k);
         v.clear();
         for (std::size_t i = 1; i < s.size(); ++i)
